@@ -133,7 +133,23 @@ def checkAml (case impl : List String) : List Fail :=
             | some bs =>
               (match model with
                | none => [⟨"corr", tag ++ ",C18", "missing-panic", s!"model panics, impl emits {bs.length} bytes"⟩,
-                          ⟨"prop", "C18", "not-refused", "an oversized count/size (or an invalid operand) was serialised"⟩]
+                          ⟨"prop", "C18", "not-refused", "an oversized count/size (or an invalid operand) was serialised"⟩] ++
+                 -- the bytes exist, so the layout oracle of a bare descriptor is evaluated on them as well (C10):
+                 -- a descriptor the model refuses and the implementation emits is judged on what it says
+                 (match t with
+                  | .node op ints _ _ =>
+                    if Spec.isDescriptor op then
+                      match Spec.Res.rows op ints with
+                      | some (total, rs) =>
+                        -- a value the reference assigns to a field must fit the field: `render` would truncate it
+                        (match rs.find? (fun r => match r with | .num _ w v => decide (v ≥ 2 ^ (8 * w)) | _ => false) with
+                         | some r => [⟨"prop", "C10", "descriptor-layout", s!"field at offset {r.off} (width {r.width}): the specification's value does not fit the field, yet a descriptor was emitted with {(bs.drop r.off).take r.width} there"⟩]
+                         | none =>
+                           match Spec.conforms total rs bs with
+                           | some e => [⟨"prop", "C10", "descriptor-layout", e ++ " (a descriptor the model refuses was emitted)"⟩]
+                           | none => [])
+                      | none => []
+                    else [])
                | some m =>
                  (if m ≠ bs then [⟨"corr", tag, "model", s!"model {bytesToHex (m.take 64)}… impl {bytesToHex (bs.take 64)}… (first difference at {firstDiffB m bs})"⟩] else []) ++
                  (match t with
